@@ -566,6 +566,8 @@ class XPathContext:
                     status = self.item, self.axis
                     self.axis = 'preceding'
                     ancestors = {root}
+                    if isinstance(item, (AttributeNode, NamespaceNode)):
+                        item = root  # the nodes that precede the parent element
 
                     while root.parent is not None:
                         if root is self.root and self.document is None:
@@ -583,21 +585,25 @@ class XPathContext:
 
     def iter_followings(self) -> Iterator[ta.ChildNodeType]:
         """Iterator for 'following' forward axis."""
-        if isinstance(self.item, ElementNode):
+        if isinstance(self.item, XPathNode) and \
+                not isinstance(self.item, (DocumentNode, AttributeNode)):
             status = self.item, self.axis
             self.axis = 'following'
 
-            descendants = set(self.item.iter_descendants())
+            descendants: set[Any] = set()
+            if isinstance(self.item, ElementNode):
+                descendants.update(self.item.iter_descendants())
             position = self.item.position
 
-            root = self.item
-            while isinstance(root.parent, ElementNode) and root is not self.root:
+            root: Any = self.item
+            while root.parent is not None and root is not self.root:
                 root = root.parent
 
-            for item in root.iter_descendants(with_self=False):
-                if position < item.position and item not in descendants:
-                    self.item = item
-                    yield item
+            if isinstance(root, (ElementNode, DocumentNode)):
+                for item in root.iter_descendants(with_self=False):
+                    if position < item.position and item not in descendants:
+                        self.item = item
+                        yield item
 
             self.item, self.axis = status
 
